@@ -103,7 +103,7 @@ CHECKS['C02'] = {
 CHECKS['C03'] = {
     'title': 'tree iterators and tear-down on every reachable shape', 'level': 'model_checking', 'jobs': c03_jobs,
     'rule': TREE_RULE % ('src/avl.c and src/rbt.c', '; in every state additionally the 12 foreach loop forms, the 6 step functions from every node, head/tail/post_head/post_tail, '
-                         'and tear-down interrupted after every k in 0..n (continued with the saved cursor, and restarted with a null cursor), every handed-out node being poisoned at once'),
+                         'and tear-down interrupted after every k in 0..n (continued with the saved cursor, and restarted with a null cursor - before the restart every iterator form and step function runs on the remaining tree), every handed-out node being poisoned at once'),
     'assumptions': ['state set = reachable set of the C01/C02 explorations at the stated bound, regenerated by the same BFS',
                     'reads of a handed-out node are detected by ASan poisoning (asan jobs) and by wild-pointer poisoning (plain jobs: a followed pointer faults, a compared pointer changes the sequence)'],
 }
@@ -228,7 +228,7 @@ CHECKS['C06'] = {
              'rtrim/ltrim/trim and raw forms with four trim sets (isspace default, "a", " \\0", "\\xE9a"), setn for every k in 0..mem+1, setn_, setm, exit (ownership hand-over), swap, a_utf_catc at every '
              'UTF-8 length boundary, a_utf_len, catf with six formats; and length-focused (single letter, length <= N) with appends of every length 0..17 and catf("%s") of every argument length 0..17 so that the '
              'formatted text under-fills, exactly fills and over-fills the spare room at every fill level (one-pass and two-pass vsnprintf paths). Content, length<=capacity, NUL placement of the terminating '
-             'variants, return values and the allocator ledger are checked after every call; comparison functions are checked on all ordered pairs of strings of length <= 4 (5 thorough). '
+             'variants, return values and the allocator ledger are checked after every call; comparison functions are checked on all ordered pairs of strings of length <= 4 (5 thorough); a sweep over all 256 byte values takes each through the one-byte and the block appends / pops of both variants, "%s" formatting, one-byte trim sets, white-space trimming and comparison. '
              'Operations whose result leaves the alphabet (code points, formatted numbers) are executed and checked from every state but their successors are not expanded.'),
     'assumptions': ['host vsnprintf is the definition of what the C formatter produces', 'the raw setters a_str_setn_/a_str_setm_ are driven within their documented preconditions (k <= capacity); a_str_setm_ below the length is a capacity operation the statement does not list',
                     'isspace is evaluated in the "C" locale'],
@@ -320,7 +320,7 @@ CHECKS['C19'] = {
     'title': 'integer square root, gcd/lcm, bit reversal, byte order', 'level': 'exploration', 'engine': 'grid', 'jobs': c19_jobs,
     'rule': ('complete enumeration, sharded over 16 processes, executed against the real functions compiled from /repo (through the out-of-line symbols of src/a.c; thorough additionally with the header inline bodies): '
              'a_u32_sqrt on ALL 2^32 inputs (r^2 <= x < (r+1)^2 in 64-bit arithmetic); a_u64_sqrt on k^2-1, k^2, k^2+1, k^2+k for every k below 2^24 (quick; every k below 2^32 in thorough) plus the top 2^22 k, every m*2^e (m<2^16, e<=48) and 2^64-1-j; '
-             'gcd/lcm of both widths on all pairs below 2048 (4096 thorough) against Stein\'s binary gcd, brute-force common divisors below 256, and all pairs of a special set (0, 1, m*2^e, 2^k+-1, primes near 2^16/2^32/2^64, max, operands whose Euclid remainders exceed 2^32); '
+             'gcd/lcm of both widths on all pairs below 2048 (4096 thorough) against Stein\'s binary gcd, brute-force common divisors below 256, and all pairs of a special set (0, 1, m*2^e, 2^k+-1, primes near 2^16/2^32/2^64, max, operands whose Euclid remainders exceed 2^32, every Fibonacci, Lucas and Pell number: the longest remainder chains, in both argument orders); '
              'bit reversal on all u8, all u16, ALL 2^32 u32 and a u64 lattice (<=2 bits set, complements, m*2^e) against a table reference, with involution; little/big-endian set/get on all u16 x 8 offsets, ALL 2^32 u32 and a u64 lattice x 8 unaligned offsets: '
              'byte layout equals explicit shifts, get(set(x)) == x, cross-order load equals the byte-swapped value, neighbouring bytes untouched. distinct_nontrivial counts inputs other than the trivial ones (0, 1, all-ones, equal operands); all enumerated inputs are distinct by construction.'),
     'assumptions': ['host is x86-64 little-endian; order independence is checked as "layout equals explicit shifts", which does not depend on host order by construction',
@@ -422,7 +422,7 @@ CHECKS['C15'] = {
              'Requests: every boundary tuple over {-2,0,1,3} (4^4 cubic, 4^6 quintic, septic 3^8 over {-2,0,3} in quick and 4^8 in thorough) plus every unit boundary vector (one non-zero datum, scaled by 1,-1,3,2^20,2^-20: isolates each numeric constant of the closed forms) '
              'x 30 durations (2^-12..2^12, 3, 10, 0.1, 1e-3, 1e3; float: 2^-6..2^6). Per request: position/velocity/acceleration at time zero equal the request exactly (jerk within 4 ulp); every coefficient equals the reference within 2048 eps of the data scale (worst observed 211); '
              'final position/velocity/acceleration/jerk at the end time within a per-degree, per-derivative multiple of eps x data scale / ts^d that is 16x the worst value observed on the unchanged tree (e.g. septic: 2048/16384/81920/400000 against observed 123/1002/4727/20808; the closed forms cancel terms with constants up to 420); vel/acc/jer outputs at ts and ts/2 equal Horner of the derivative polynomials of the stored coefficients within 32 eps (worst 0.9); c1/c2/c3 accessors are the term-by-term derivatives. '
-             'Polynomials: EVERY coefficient vector of length 0..7 (8 thorough) over {-2,0,1,3} x 8 abscissae: eval/eval_ and evar/evar_ equal the exact Horner value (exact on this dyadic domain), swap is the reversal and an involution, empty and one-coefficient vectors included. distinct_nontrivial = requests with non-zero derivative data / vectors longer than one.'),
+             'Polynomials: EVERY coefficient vector of length 0..7 (8 thorough) over {-2,0,1,3} x 8 abscissae: eval/eval_ and evar/evar_ equal the exact Horner value (exact on this dyadic domain), swap is the reversal and an involution, empty and one-coefficient vectors included; lengths up to 24 (40 thorough) with every vector of one or two non-zero coefficients from {1,-2,3}, the all-ones and the alternating vector. distinct_nontrivial = requests with non-zero derivative data / vectors longer than one.'),
     'assumptions': ['libquadmath arithmetic is the reference; tolerances are 10x above the worst error observed on the unchanged tree and 10 orders of magnitude below the error a wrong constant produces', 'boundary values outside {-2,0,1,3} and the scaled unit vectors are not enumerated (the generators are linear in the boundary data, so unit vectors determine them)'],
     'design_ref': '§4.C15', 'technique': 'bounded-exhaustive enumeration of boundary data x durations against a quad-precision solution of the boundary-value system; exact Horner on a dyadic lattice',
     'level_text': 'The generators are linear in the boundary data, so the complete set of unit boundary vectors together with all tuples over a 4-value set determines every coefficient formula for each of 30 durations spanning 7 orders of magnitude; every request is compared with an independently solved boundary-value problem, and the evaluators with exact Horner values on all short coefficient vectors.',
@@ -450,10 +450,10 @@ CHECKS['C12'] = {
     'title': 'PID controllers stay within limits and follow their equations for every history', 'level': 'model_checking', 'jobs': c12_jobs,
     'rule': ('explicit-state BFS over the real controllers; the controller struct is the state. Plain PID (src/pid.c): for each parameter set (quick: 12 sets with one per limit relation - wide, integrator clamp at zero on either side, degenerate clamps, pinned output; '
              'thorough: the full product kp,kd in {0,1/2,2} x ki in {0,1/2,1} x 4 integrator-limit pairs x 4 output-limit pairs = 432 sets) from EVERY reachable state EVERY step (mode in {run,pos,inc}) x (set-point, feedback) in {-2,0,1}^2 (thorough {-3,-1,0,2}^2) and zero is executed; '
-             'all quantities are dyadic so the arithmetic is exact and the BFS reaches a FIXPOINT (histories of any length). Oracle after every step: output within limits, state finite, integrator never moves further beyond its clamp, inside the clamp it advances by exactly ki*err, beyond the clamp it holds unless the error points inward, '
+             'all quantities are dyadic so the arithmetic is exact and the BFS reaches a FIXPOINT (histories of any length). Oracle after every step: output within limits, state finite, integrator never moves further beyond its clamp, inside the clamp it advances by exactly ki*err, beyond the clamp it holds unless the error points inward, exactly on a non-zero clamp it integrates when the error points inward (the documented switch of pid.h), '
              'positional and incremental outputs equal the difference equations exactly, zero restores the initial state. A shadow pair (positional + incremental controller fed the same inputs) must coincide for as long as no limit has been active. '
              'Single-neuron controller: depth-bounded BFS (4 steps quick, 5 thorough) from 4 weight vectors incl. all-zero x 2 output gains; fuzzy controller: depth-bounded BFS (3 / 4 steps) over 9 rule bases (two huge ramps whose rules fire with total strength around 1e-16, 3x3 shoulder triangles with all three tables and with each of the kp, ki, kd tables absent, an unsorted 3x3 table, 5x5 trapezoid shoulders, 3 wide triangles with 3 simultaneously active sets, the 7x7 base of test/pid_fuzzy.h) x ALL SEVEN operators x parameter sets, scratch buffer of exactly A_PID_FUZZY_BFUZZ(active) bytes between canaries: '
-             'output within limits, every field and scheduled gain finite, gains within base + [min,max] of the consequents, step equations with the gains scheduled for that step. distinct_nontrivial = distinct reachable controller states.'),
+             'output within limits, every field and scheduled gain finite, gains within base + [min,max] of the consequents, step equations with the gains scheduled for that step; the rule base replaced in mid-history (every ordered pair of the 3x3 family with all tables / one table absent, every first and second step): the step after a_pid_fuzzy_set_rule is checked like any step of the new base. distinct_nontrivial = distinct reachable controller states.'),
     'assumptions': ['dyadic gains/limits/inputs: every floating-point operation of the plain controller is exact, so == comparisons are sound; the fuzzy step is compared within 16 ulp of the term magnitude because scheduled gains are weighted means',
                     'exactly on a clamp (sum == summax or sum == summin) either holding or integrating is accepted: code comment and header formula differ there', 'the neuron controller is checked for limits, finiteness, cache updates and zeroing, not against the header formula (the statement names the equations of the positional and incremental forms)',
                     'magnitudes small enough that nothing overflows (quantifier of the property)'],
@@ -499,7 +499,7 @@ def c16_jobs(tier):
 CHECKS['C16'] = {
     'title': 'transfer function and RC filters realise their difference equations exactly', 'level': 'model_checking', 'engine': 'grid', 'jobs': c16_jobs,
     'rule': ('exhaustive enumeration of operation sequences on the real filters against a reference evaluated on the whole recorded history (time-indexed sums, no delay line): transfer function - EVERY numerator and denominator order 0..3 (and, with tap-identifying coefficient vectors and impulse/ramp/sign-pattern words, every order pair up to 11/11 quick, 20/20 thorough), EVERY coefficient vector over {-1,0,1,2} (denominator {-1,0,1} in quick; 3400 filters quick, 7225 thorough), '
-             'EVERY input word of length 5 (7 thorough) over {-1,0,1,2}, with a zeroing inserted after 1, 3, .. samples (the suffix must then behave as on a fresh filter); integers, so all comparisons are exact; guard cells around both delay lines, stale contents before init. Linearity (2x, x1+x2) and time invariance (leading zero sample) on ALL pairs of words of length 3 (4 thorough). '
+             'EVERY input word of length 5 (7 thorough) over {-1,0,1,2}, with a zeroing inserted after 1, 3, .. samples (the suffix must then behave as on a fresh filter); integers, so all comparisons are exact; guard cells around both delay lines, stale contents before init. Linearity (2x, x1+x2) and time invariance (leading zero sample) on ALL pairs of words of length 3 (4 thorough); samples scaled by +-2^e with e near both ends of the range of the real type (5 filters x 3 words): every output is the scaled output bit for bit. '
              'RC filters: alpha in {0,1/8,1/4,1/2,3/4,1} x EVERY word of length 7 (9) over {-2,0,1,3}: low-pass output stays in the range of 0 and the values fed so far and equals the convex combination exactly, high-pass equals alpha*(y + x - x_prev); 400-step settling / decay on constant inputs; extreme-magnitude words (+-REAL_MAX, 1e16) for the range clause; generators on fc, ts in 10^-12..10^12 and on cut-off frequencies at both ends of the normal range of the real type with sample times that keep the product moderate (in [0,1], strictly inside for 1e-12 <= fc*ts <= 1e12, macros and C++ members agree, monotone). '
              'states = distinct delay-line contents reached, transitions = filter steps executed, traces_validated_against_impl = input words executed on the real code.'),
     'assumptions': ['integer / dyadic coefficients and inputs make every filter step exact, so outputs are compared with ==', 'unstable filters make the state space infinite, hence the depth bound; stable and nilpotent coefficient sets are included in the same enumeration'],
